@@ -46,6 +46,13 @@ func (v *FnVC) emit(st *State, f string, args []Term) {
 		st.ghost[eaKey(f, j)] = v.sc.Define("ea", Store(arr, n, a))
 	}
 	st.ghost[ecKey(f)] = v.sc.Define("ec", Add(n, IntLit(1)))
+	// direct emissions by the function's own code (never disturbed by callees)
+	hk := "eh#" + f
+	hn := tZero
+	if t, ok := st.ghost[hk]; ok {
+		hn = t
+	}
+	st.ghost[hk] = v.sc.Define("eh", Add(hn, IntLit(1)))
 	if v.seenFormats == nil {
 		v.seenFormats = map[string]bool{}
 	}
@@ -231,6 +238,12 @@ func (v *FnVC) emitIntrinsic(fr *frame, st *State, callee *ssa.Function, args []
 			return "", sc.T, false
 		}
 		return "", v.sc.Fresh("dynstr", SStr), false
+	}
+	if strings.HasPrefix(name, "github.com/microsoft/yardl/tooling/internal/formatting.Delimited[") {
+		if res, ok := v.delimited(fr, st, args, x); ok {
+			return res, true
+		}
+		return nil, false
 	}
 	switch name {
 	case "fmt.Fprintf":
@@ -510,4 +523,167 @@ func (mi *ModInfo) MayEmit(f *ssa.Function) (map[string]bool, bool) {
 func isLit(t Term) bool {
 	_, ok := smallLit(t)
 	return ok
+}
+
+// delimited models formatting.Delimited(w, sep, items, action) through the contract of the action closure:
+// the action runs once per item, in order; the separator is printed between items. For every format F for
+// which the action's contract says `emitted(F) == n` (n a literal), the counter grows by len(items)*n and the
+// action's postconditions hold for every k (ordinals relative to the k-th application).
+func (v *FnVC) delimited(fr *frame, st *State, args []Val, x ssa.CallInstruction) (Val, bool) {
+	c := x.Common()
+	reach := fr.reach[fr.curBlock.Index]
+	items, ok := args[2].(SliceV)
+	if !ok {
+		return nil, false
+	}
+	fv, ok := args[3].(FuncV)
+	if !ok || fv.Fn == nil {
+		return nil, false
+	}
+	con := v.w.Contracts.ByFunc[fv.Fn]
+	if con == nil || len(con.Ensures) == 0 {
+		return nil, false
+	}
+	perCall := map[string]int64{}
+	for _, cl := range con.Ensures {
+		collectEmitCounts(cl.Expr, perCall)
+	}
+	formats := formatsOfContract(con)
+	for f := range formats {
+		if _, ok := perCall[f]; !ok {
+			return nil, false // the contract must fix how often each format it talks about is printed per call
+		}
+	}
+	// separator
+	if k, ok := c.Args[1].(*ssa.Const); ok && k.Value != nil && k.Value.Kind() == constant.String {
+		sep := constant.StringVal(k.Value)
+		old := v.emitCount(st, sep)
+		n := v.sc.Fresh("ec", SInt)
+		v.sc.Assert(Implies(reach, Eq(n, Add(old, Ite(Lt(tZero, items.Len), Sub(items.Len, IntLit(1)), tZero)))))
+		st.ghost[ecKey(sep)] = n
+	} else {
+		v.havocEmits(st, map[string]bool{dynFormat: true}, false)
+	}
+	// heap effect of the action (any number of applications)
+	pre := st.clone()
+	v.withLocalFrame(fr, st, func() { v.applyMods(st, v.w.mods.Of(fv.Fn)) })
+	v.bumpAlloc(st, reach)
+	// emissions of formats the action may print but its contract does not mention: unknown growth
+	mayf, top := v.w.mods.MayEmit(fv.Fn)
+	other := map[string]bool{}
+	for f := range mayf {
+		if !formats[f] {
+			other[f] = true
+		}
+	}
+	v.havocEmits(st, other, top)
+	// formats under contract
+	bases := map[string]Term{}
+	var fnames []string
+	for f := range formats {
+		fnames = append(fnames, f)
+	}
+	sort.Strings(fnames)
+	for _, f := range fnames {
+		base := v.emitCount(st, f)
+		bases[f] = base
+		total := v.sc.Define("ec", Add(base, app(SInt, "*", items.Len, IntLit(perCall[f]))))
+		st.ghost[ecKey(f)] = total
+		// fresh operand arrays that keep the earlier entries
+		var keys []string
+		for k := range st.ghost {
+			if strings.HasPrefix(k, "ea#"+f+"#") {
+				keys = append(keys, k)
+			}
+		}
+		sort.Strings(keys)
+		for _, k := range keys {
+			prev := st.ghost[k]
+			na := v.sc.Fresh("ea", prev.Sort)
+			inner := Sort(string(prev.Sort)[len("(Array Int ") : len(prev.Sort)-1])
+			for j := 0; j < 8; j++ {
+				jj := IntLit(int64(j))
+				v.sc.Assert(Implies(Lt(jj, base), Eq(Select(na, jj, inner), Select(prev, jj, inner))))
+			}
+			st.ghost[k] = na
+		}
+	}
+	// the action's postconditions for an arbitrary k
+	v.sc.nfresh++
+	ksym := sym(fmt.Sprintf("q.delim!%d", v.sc.nfresh))
+	k := Term{ksym, SInt}
+	rng := And(Le(tZero, k), Lt(k, items.Len))
+	et := under(c.Args[2].Type()).(*types.Slice).Elem()
+	for _, cl := range con.Ensures {
+		cl := cl
+		q := v.underBinder(ksym, SInt, rng, true, false, func() Term {
+			// states as seen by the k-th application
+			stK, oldK := st.clone(), st.clone()
+			for _, f := range fnames {
+				n := IntLit(perCall[f])
+				oldK.ghost[ecKey(f)] = Add(bases[f], app(SInt, "*", k, n))
+				stK.ghost[ecKey(f)] = Add(bases[f], app(SInt, "*", Add(k, IntLit(1)), n))
+			}
+			var item Val
+			switch kindOf(et) {
+			case kStruct:
+				item = v.loadStruct(pre, v.elemAddr(et, items.Arr, Add(items.Off, k)), et, tTrue)
+			default:
+				item = v.loadLoc(pre, Loc{Kind: locElem, Base: items.Arr, Idx: Add(items.Off, k), T: et}, tTrue)
+			}
+			sub := &frame{fn: fv.Fn, depth: fr.depth + 1, vals: map[ssa.Value]Val{}, params: []Val{args[0], Sc{k}, item}, freeVars: fv.Bind}
+			for i, p := range fv.Fn.Params {
+				sub.vals[p] = sub.params[i]
+			}
+			for i, p := range fv.Fn.FreeVars {
+				if i < len(fv.Bind) {
+					sub.vals[p] = fv.Bind[i]
+				}
+			}
+			sub.entry = pre
+			env := &specEnv{v: v, fr: sub, st: stK, old: oldK, result: TupleV{}, resType: types.NewTuple()}
+			env.guard = rng
+			if t, ok := tryEvalBool(env, cl.Expr); ok {
+				return t
+			}
+			return tTrue
+		})
+		v.sc.Assert(Implies(reach, Term{q, SBool}))
+	}
+	if fr.top || fr.own {
+		v.addObl("CANARY", "false-after-Delimited", x.Pos(), reach, tTrue, nil, "notunsat")
+	}
+	return TupleV{}, true
+}
+
+// collectEmitCounts finds conjuncts `emitted("F") == n` with a literal n.
+func collectEmitCounts(e SExpr, out map[string]int64) {
+	b, ok := e.(SBin)
+	if !ok {
+		return
+	}
+	if b.Op == "&&" {
+		collectEmitCounts(b.L, out)
+		collectEmitCounts(b.R, out)
+		return
+	}
+	if b.Op != "==" {
+		return
+	}
+	call, ok := b.L.(SCall)
+	lit, ok2 := b.R.(SLit)
+	if !ok || !ok2 || lit.Kind != "int" {
+		return
+	}
+	id, ok := call.Fn.(SIdent)
+	if !ok || id.Name != "emitted" || len(call.Args) != 1 {
+		return
+	}
+	f, ok := call.Args[0].(SLit)
+	if !ok || f.Kind != "string" {
+		return
+	}
+	var n int64
+	fmt.Sscanf(lit.Val, "%d", &n)
+	out[f.Val] = n
 }
